@@ -11,7 +11,9 @@ Two layers:
     removed); the outputs (diagnostics and -i hints) must be equal after rebasing the rows behind
     the edit.
 """
+import collections
 import json
+import re
 import os
 import subprocess
 
@@ -121,6 +123,11 @@ def context_key(text, kind, row):
             import re
             return re.sub(r"[a-z_0-9]+$", "id", s) if not s in ("def", "class", "module", "if", "unless", "case", "when", "in", "end", "else", "elsif", "while", "begin", "rescue", "do", "private", "protected", "public", "") else (s or "<blank>")
         return "<eof>"
+    prev = lines[row - 2] if 0 <= row - 2 < len(lines) else ""
+    if kind in ("blank", "comment") and prev.strip().startswith("in ") and "^" in prev:
+        # `in ^name => x` / `in ^(expr) => x` directly followed by a blank / comment line: the pin is evaluated as a call
+        # (`^` as an operator / the pinned method without arguments) once more
+        return "Dev_PinnedExpressionPatternBeforeBlankLine"
     return "%s:after[%s]before[%s]" % (kind, first(row - 2), first(row - 1))
 
 
@@ -134,6 +141,24 @@ def run(tier, work):
     progs = [(t, x, None) for t, x in P.corpus(rng, 40 if tier == "quick" else 585)]
     progs += P.generated(work, stats, rng, *((12, 8, 8) if tier == "quick" else (60, 40, 40)))
     jobs, meta = [], []
+    # unfinished programs (what an editor sends while the user types): a corpus program cut inside a line, right behind an
+    # opening parenthesis, a comma or an operator; only the trailing newlines at EOF are varied
+    unfinished = []
+    for tag, text in P.corpus(rng, 60 if tier == "quick" else 585):
+        lines = text.split("\n")
+        rows = [i for i, l in enumerate(lines) if re.search(r"[(,=+]\s*\S", P.strip_strings(l) or "")]
+        for i in rng.sample(rows, min(len(rows), 2 if tier == "quick" else 5)):
+            m = list(re.finditer(r"[(,=+]", lines[i]))
+            cut = rng.choice(m).end()
+            unfinished.append(("unfinished:" + tag, "\n".join(lines[:i] + [lines[i][:cut] + " 1" if lines[i][cut - 1] in "(," and rng.random() < 0.5
+                                                                          else lines[i][:cut]])))
+    for tag, text in unfinished:
+        base_i = len(jobs)
+        jobs.append({"cfg": None, "files": {"t.rb": text}, "args": ["t.rb", "-i"]})
+        meta.append(("base", tag, None))
+        for k in (1, 3):
+            jobs.append({"cfg": None, "files": {"t.rb": text + "\n" * k}, "args": ["t.rb", "-i"]})
+            meta.append(("add-final-newline", tag, (base_i, 10 ** 9, 0)))
     for tag, text, cfgname in progs:
         cfg = cfgs[cfgname] if cfgname else None
         base_i = len(jobs)
@@ -159,10 +184,25 @@ def run(tier, work):
         compared += 1
         want = P.shift_rows(C.parse_lines(b["out"]), at, by)
         got = C.parse_lines(res.get("out") or "") if not (res.hung or res.crashed) else [("!", "", 0, str(res.get("cls")))]
-        if same_output(kind, at, want, got):
+        if tag.startswith("unfinished:"):
+            # an unfinished text has no meaning to preserve; what must not happen is that a message both runs print
+            # changes its row with the number of trailing newlines (messages about the end of input itself come and go)
+            cw = collections.Counter((k, m) for k, f, r_, m in want)
+            cg = collections.Counter((k, m) for k, f, r_, m in got)
+            both = set(cw) & set(cg)
+            rows_w = sorted((k, m, r_) for k, f, r_, m in want if (k, m) in both and cw[(k, m)] == cg[(k, m)])
+            rows_g = sorted((k, m, r_) for k, f, r_, m in got if (k, m) in both and cw[(k, m)] == cg[(k, m)])
+            if rows_w == rows_g:
+                continue
+        elif same_output(kind, at, want, got):
             continue
         v.count("differences")
         key = context_key(jobs[base_i]["files"]["t.rb"], kind, at if at < 10 ** 9 else len(jobs[base_i]["files"]["t.rb"].split("\n")))
+        if tag.startswith("unfinished:"):
+            last = jobs[base_i]["files"]["t.rb"].split("\n")[-1].strip()
+            word = last.split(" ")[0] if last else "<blank>"
+            key = "unfinished-row-moves-with-trailing-newlines:last-line[%s]" % (word if word in ("def", "class", "module", "if", "unless", "case", "when", "in", "while",
+                                                                             "return", "dbtp", "attr_accessor", "private") else "statement")
         if v.seen(key):
             v.again(key)
             continue
@@ -171,7 +211,15 @@ def run(tier, work):
         eb = C.confirm_alone(work, {"cfg": job["cfg"], "files": job["files"], "args": job["args"]}, runs=1)[0]
         want2 = P.shift_rows(C.parse_lines(bb.get("out") or ""), at, by)
         got2 = C.parse_lines(eb.get("out") or "")
-        if same_output(kind, at, want2, got2) and not eb.get("timeout"):
+        if tag.startswith("unfinished:"):
+            cw = collections.Counter((k, m) for k, f, r_, m in want2)
+            cg = collections.Counter((k, m) for k, f, r_, m in got2)
+            both = set(cw) & set(cg)
+            if sorted((k, m, r_) for k, f, r_, m in want2 if (k, m) in both and cw[(k, m)] == cg[(k, m)]) == \
+                    sorted((k, m, r_) for k, f, r_, m in got2 if (k, m) in both and cw[(k, m)] == cg[(k, m)]) or eb.get("timeout"):
+                v.count("not_reproduced_blackbox")
+                continue
+        elif same_output(kind, at, want2, got2) and not eb.get("timeout"):
             v.count("not_reproduced_blackbox")
             continue
         diff = [x for x in got2 if x not in want2][:3] + [("missing",) + x for x in want2 if x not in got2][:3]
@@ -186,7 +234,8 @@ def run(tier, work):
            "programs": len(progs), "edited_programs_compared": compared, "notes": v.notes,
            "rule": "Rows.tla behaviours (every token stream up to the bound with strings of 0-2 newlines and Unget) replayed "
                    "into ti/parser; corpus + generated programs x {blank, comment} at statement boundaries, final newline "
-                   "added/removed, string literals widened"}
+                   "added/removed, string literals widened; corpus programs cut inside a line (unfinished call / assignment, as an editor "
+                   "sends them) with 0, 1 and 3 trailing newlines"}
     return v.finish("model_checking", cov, assumptions=[
         "statement boundaries of corpus programs are found conservatively (bracket depth 0, no continuation, no heredoc)",
         "outputs compared: diagnostics and -i hints, as ordered lists after rebasing rows"])
